@@ -301,8 +301,8 @@ fn e1(f: u8, force: bool) {
     std::mem::forget(engine);
 }
 verif_harness! { c12_store_enqueue_admit, 6, { e1(0, false); } }
-verif_harness! { c12_store_enqueue_reject, 6, { e1(1, false); } }
-verif_harness! { c12_store_enqueue_throttled, 6, { e1(2, false); } }
+verif_harness! { #[kani::stub(crate::keeper::Keeper::insert, crate::keeper::Keeper::verif_insert_forbidden)] c12_store_enqueue_reject, 6, { e1(1, false); } }
+verif_harness! { #[kani::stub(crate::keeper::Keeper::insert, crate::keeper::Keeper::verif_insert_forbidden)] c12_store_enqueue_throttled, 6, { e1(2, false); } }
 verif_harness! { c12_store_enqueue_forced_reject, 6, { e1(1, true); } }
 
 // native replay of counterexamples: bin/check writes the unit test Kani generated (`--concrete-playback=print`) into the
